@@ -299,3 +299,41 @@ def must_atoms(fx: 'FuncFacts'):
                 work.append(s)
     fx._must = {n: (v if v is not None else frozenset()) for n, v in state.items()}
     return fx._must
+
+
+def expr_guard_atoms(fnode, e):
+    """atoms that hold whenever the expression e is evaluated because of the EXPRESSION context it sits in: the test of an
+    enclosing conditional expression, earlier operands of an enclosing `and` / `or`, the conditions of an enclosing
+    comprehension (statement-level guards are not included)"""
+    parent = {}
+    for n in ast.walk(fnode):
+        for c in ast.iter_child_nodes(n):
+            parent[id(c)] = n
+    out = []
+    cur = e
+    while id(cur) in parent:
+        p = parent[id(cur)]
+        if isinstance(p, ast.stmt):
+            break
+        if isinstance(p, ast.IfExp):
+            if cur is p.body:
+                out += atoms_of(p.test, True)
+            elif cur is p.orelse:
+                out += atoms_of(p.test, False)
+        elif isinstance(p, ast.BoolOp):
+            idx = [i for i, v in enumerate(p.values) if v is cur]
+            if idx:
+                for v in p.values[:idx[0]]:
+                    out += atoms_of(v, isinstance(p.op, ast.And))
+        elif isinstance(p, ast.comprehension):
+            if cur in p.ifs:
+                i = p.ifs.index(cur)
+                for v in p.ifs[:i]:
+                    out += atoms_of(v, True)
+        elif isinstance(p, (ast.ListComp, ast.SetComp, ast.GeneratorExp, ast.DictComp)):
+            if cur is getattr(p, 'elt', None) or cur is getattr(p, 'key', None) or cur is getattr(p, 'value', None):
+                for g in p.generators:
+                    for v in g.ifs:
+                        out += atoms_of(v, True)
+        cur = p
+    return out
